@@ -39,7 +39,8 @@ def gen_irset(rnd, density=None, toggle=None, sep=None):
                     add(f"{p}{code}{t}_f{f}_d1")
     if not toggle:
         add("off") if rnd.random() < 0.2 else waves.append({"Key": "off", "Para": "P", "HexCode": "AB" * rnd.randrange(1, 300)})
-    if sep:
+    if sep or rnd.random() < 0.15:
+        # ordinary sets may carry the FUN_d0 / FUN_d1 keys too: what makes a remote a separate-swing remote is its id
         for k in ("FUN_d0", "FUN_d1"):
             if rnd.random() < 0.8:
                 waves.append({"Key": k, "Para": "S", "HexCode": "CD" * rnd.randrange(1, 40)})
